@@ -383,7 +383,7 @@ func rule172(r *core.Run, ctx *oblig.Ctx) map[int]bool {
 				}
 				more := false
 				for _, g := range core.GuardsOf(ret) {
-					gs := r.P.SliceOf(g.If.Cond, core.SliceOpts{Depth: -1})
+					gs := r.P.SliceOf(g.If.Cond, core.SliceOpts{Depth: -1, Control: true})
 					if gs.HasValue(cut) {
 						more = true
 					}
@@ -776,8 +776,9 @@ func rule175(r *core.Run) {
 					}
 				}
 				for _, g := range core.GuardsOf(ret) {
-					gs := r.P.SliceOf(g.If.Cond, core.SliceOpts{Depth: -1})
-					isMeta := gs.Has("field:s3bolt.Backend.metaBucketName") && (gs.Has("call:bytes.Equal") || gs.Has("call:bytes.Compare"))
+					gs := r.P.SliceOf(g.If.Cond, core.SliceOpts{Depth: -1, Control: true})
+					_, _, _, isCmp := byteCompare(r, g.If.Cond, true)
+					isMeta := gs.Has("field:s3bolt.Backend.metaBucketName") && (gs.Has("call:bytes.Equal") || gs.Has("call:bytes.Compare") || isCmp)
 					if !isMeta || gs.Has("call:builtin:len") {
 						bad = "InvalidBucketName returned at " + pos(r, ret) + " under a test that is not the bookkeeping-name comparison"
 					}
